@@ -626,9 +626,24 @@ def time_fields_exact(ctx, rule, entries, fn):
             n_ok += 1
             ctx.ob(rule, 'microseconds = first six fraction digits, zero-padded as text, then int() (`%s`)' % t, True, where)
             continue
+        import re as _re
+        mw = None
+        for nm in names:
+            mw = _re.match(r"^int\(%s\[:(\d+)\]\.ljust\((\d+), '0'\)\)$" % _re.escape(nm), t)
+            if mw:
+                break
+        if mw:
+            a_, b_ = int(mw.group(1)), int(mw.group(2))
+            ctx.violation(rule, '%s::parse_embedded_scalar' % FJ, t,
+                          'the well-formed value "h:08:12:05.123456" decodes to %s: the fraction is cut to %d digits and padded to '
+                          '%d, a time has exactly six (microseconds)' % (
+                              '08:12:05.123450' if a_ < 6 else ('a TypeError/ValueError or a wrong microsecond' if b_ != 6 or a_ > 6 else '?'),
+                              a_, b_),
+                          'the fraction of a time is cut/padded to %d/%d digits instead of 6/6' % (a_, b_), file=FJ,
+                          line=e.lineno, engine='E7')
+            continue
         mo = None
         for nm in names:
-            import re as _re
             mo = _re.match(r'^int\(%s\[:6\]\) \* 10 \*\* \(6 - len\((.+)\)\)$' % _re.escape(nm), t)
             if mo:
                 if mo.group(1) in ('%s[:6]' % nm,):
@@ -656,3 +671,41 @@ def time_fields_exact(ctx, rule, entries, fn):
                 continue
             ctx.error(rule, 'time branch: %s = `%s` is not int(<digits>); cannot decide' % (fld, norm(e)[:60]))
     ctx.count('time-of-day microsecond expressions', len(exprs))
+
+
+def number_branch(ctx, rule, entries, fn):
+    """n: values: a Quantity is built exactly when the unit group (the last one) captured something; otherwise the bare
+    float is returned.  Testing another group turns every plain number into a Quantity without unit (another kind)."""
+    from .c17 import _guards
+    try:
+        fn = ctx.model.func('jsonparser', 'parse_embedded_scalar', 'nested')     # if/else spelling: guards are explicit
+    except AnalysisError as e:
+        ctx.error(rule, str(e))
+        return
+    qrets = [r for r in ast.walk(fn) if isinstance(r, ast.Return) and isinstance(r.value, ast.Call) and norm(r.value.func) == 'Quantity']
+    if len(qrets) != 1:
+        ctx.error(rule, 'number branch: %d returns of a Quantity; cannot decide' % len(qrets))
+        return
+    q = qrets[0]
+    unit_arg = q.value.args[1] if len(q.value.args) > 1 else next((k.value for k in q.value.keywords if k.arg == 'unit'), None)
+    if unit_arg is None:
+        ctx.error(rule, 'number branch: Quantity built without a unit argument')
+        return
+    ut = norm(unit_arg)
+    gs = [(norm(t), pol) for t, pol in _guards(fn, q)]
+    gs = [(t, pol) for t, pol in gs if '[' in t or ' is ' in t]
+    pos = ('%s is not None' % ut, ut, 'bool(%s)' % ut)
+    neg = ('%s is None' % ut, 'not %s' % ut)
+    ok = any((t in pos and pol) or (t in neg and not pol) for t, pol in gs)
+    where = '%s:%d' % (FJ, q.lineno)
+    if ok:
+        ctx.ob(rule, 'a Quantity is returned exactly when the unit group `%s` captured a unit' % ut, True, where)
+    elif gs:
+        t, pol = gs[0]
+        ctx.violation(rule, '%s::parse_embedded_scalar' % FJ, '%sif %s' % ('' if pol else 'else of ', t),
+                      'the JSON value "n:5" (a plain number) decodes to Quantity(5.0, None) instead of 5.0 -- or "n:5 kW" to the '
+                      'bare number: the Quantity branch is chosen by `%s`, not by the presence of the unit `%s`' % (t, ut),
+                      'the number branch decides between number and quantity on `%s` instead of on the unit group' % t,
+                      file=FJ, line=q.lineno, engine='E7')
+    else:
+        ctx.error(rule, 'number branch: the Quantity return is not guarded; cannot decide')
